@@ -26,7 +26,11 @@ RULE = (
     "3e9..1e12 log-uniform in the integer-typed criteria - ALL int64 1/2, mixed 1/6 - and doubles 2^32..2^40 in the float ones; sums of "
     "squares leave int64) or tiny (1/6: doubles 2^-42..2^-36, about 1e-12, float64 only); the weights follow the magnitude in 2/3 of "
     "those cases and AddValueToZero's value in 1/2. Plus a malformed stream: criteria_range with "
-    "lo >= hi (refusal). Three legs: implementation vs an independent Fraction / 60-digit Decimal evaluation of the normal form and the "
+    "lo >= hi (refusal). Plus SEQUENCES, a fixed share of every run (one per configuration in quick = 94, 14 per configuration in "
+    "thorough, whatever the seed): ONE scaler object (every scaler, target, criteria_range / clip / with_mean / with_std / value "
+    "setting) transforms 2 or 3 DIFFERENT decision matrices with the same number of criteria one after the other (alternatives and "
+    "their number, objectives, weights, dtypes and magnitude drawn afresh for each); every output is judged against the normal form "
+    "of ITS OWN input and against the model's answer for that input (one model request per transformed matrix). Three legs: implementation vs an independent Fraction / 60-digit Decimal evaluation of the normal form and the "
     "cell formula (property oracle), and implementation vs the Lean model (exact Rat; Lean Float for Vector/Standard). "
     "Non-trivial: every generated case (>= 2 alternatives and >= 2 criteria, non-constant columns); distinct by case hash."
 )
@@ -171,11 +175,15 @@ def draw(rng, name, k, family):
     return vec(rng, k, family, "pos", ties=0.0)
 
 
-def make_case(rng, cfg, malformed=False, magnitude="unit"):
+def make_case(rng, cfg, malformed=False, magnitude="unit", n=None):
+    """n: the number of criteria when it is imposed (the later decision matrices of a sequence), else drawn"""
     name, target, params = cfg
     params = dict(params)
-    m = rng.randint(2, 8)
-    n = rng.choice([x for x in range(2, 7) if x != m])
+    if n is None:
+        m = rng.randint(2, 8)
+        n = rng.choice([x for x in range(2, 7) if x != m])
+    else:
+        m = rng.choice([x for x in range(2, 9) if x != n])
     family = rng.choice(["dyadic", "dyadic", "float"])
     # dtype of each criterion: all float64 / ALL int64 (the matrix is built from an integer numpy array) / mixed int64-float64
     if magnitude == "tiny":
@@ -241,7 +249,31 @@ def gen(ctx):
         cases.append(make_case(rng, lst[(i // len(names)) % len(lst)], magnitude=mag))
     for i in range(ctx.n(12, 120)):
         cases.append(make_case(rng, ("MinMaxScaler", rng.choice(TARGETS), {"range": None, "clip": rng.random() < 0.5}), malformed=True))
+    # ONE scaler object, several different decision matrices one after the other: a fixed share of every run, EVERY configuration
+    # (scaler x target x criteria_range x clip / with_mean x with_std / value) at least once whatever the seed
+    allcfg = [cfg for nm in names for cfg in by_scaler[nm]]
+    for i in range(ctx.n(len(allcfg), 14 * len(allcfg))):
+        cases.append(make_sequence(rng, allcfg[i % len(allcfg)]))
     return cases
+
+
+def make_sequence(rng, cfg):
+    """one configured scaler and 2..3 DIFFERENT decision matrices with the same number of criteria (alternatives, objectives, weights,
+    dtypes and magnitude drawn afresh for each one; the criteria keep their names) that the SAME object transforms in this order.
+    "dm" is the first one, "then" the later ones; the parameters are those drawn with the first."""
+    case = make_case(rng, cfg, magnitude=rng.choice(MAGNITUDES))
+    n = len(case["dm"]["objectives"])
+    case["then"] = []
+    for _ in range(rng.choice([1, 1, 2])):
+        for _try in range(50):
+            d = make_case(rng, cfg, magnitude=rng.choice(MAGNITUDES), n=n)["dm"]
+            if all(d["matrix"] != e["matrix"] and d["weights"] != e["weights"] for e in [case["dm"]] + case["then"]):
+                break
+        else:
+            raise RuntimeError("could not draw a different decision matrix")
+        d["criteria"] = list(case["dm"]["criteria"])
+        case["then"].append(d)
+    return case
 
 
 # ----------------------------------------------------------------------------- the implementation
@@ -291,18 +323,41 @@ def mkdm(d):
     return dm
 
 
+def steps(case):
+    """the decision matrices of a case in the order the one scaler object transforms them (a plain case: one)"""
+    return [case["dm"]] + list(case.get("then") or [])
+
+
+def _result(r):
+    mat = np.asarray(r.matrix.to_numpy(), dtype=float)
+    w = np.asarray(r.weights.to_numpy(), dtype=float)
+    return {"matrix": mat.tolist(), "weights": w.tolist(), "objectives": [int(x) for x in r.iobjectives.to_numpy()],
+            "finite": bool(np.all(np.isfinite(mat)) and np.all(np.isfinite(w)))}
+
+
 def observe(case):
     with M.quiet():
-        dm = mkdm(case["dm"])
+        if "then" not in case:
+            dm = mkdm(case["dm"])
+            try:
+                T = build(case["name"], case["target"], case["params"])
+                r = T.transform(dm)
+            except Exception as e:
+                return {"err": G.err_name(e), "msg": str(e)[:200]}
+            return _result(r)
+        # a sequence: ONE object, built once, transforms every decision matrix in turn
+        dms = [mkdm(d) for d in steps(case)]
         try:
             T = build(case["name"], case["target"], case["params"])
-            r = T.transform(dm)
         except Exception as e:
             return {"err": G.err_name(e), "msg": str(e)[:200]}
-        mat = np.asarray(r.matrix.to_numpy(), dtype=float)
-        w = np.asarray(r.weights.to_numpy(), dtype=float)
-        return {"matrix": mat.tolist(), "weights": w.tolist(), "objectives": [int(x) for x in r.iobjectives.to_numpy()],
-                "finite": bool(np.all(np.isfinite(mat)) and np.all(np.isfinite(w)))}
+        out = []
+        for dm in dms:
+            try:
+                out.append(_result(T.transform(dm)))
+            except Exception as e:
+                out.append({"err": G.err_name(e), "msg": str(e)[:200]})
+        return {"steps": out}
 
 
 FLOAT_ONLY = ("VectorScaler", "StandarScaler")
@@ -322,11 +377,13 @@ def tr_step(name, target, params, enc):
 def requests(case, obs):
     domain = "float" if case["name"] in FLOAT_ONLY else "rat"
     enc = C.fbits if domain == "float" else C.rat
-    dm = case["dm"]
-    req = {"op": "tr", "domain": domain, "M": [[enc(x) for x in row] for row in dm["matrix"]],
-           "O": ["max" if o == 1 else "min" for o in dm["objectives"]], "w": [enc(x) for x in dm["weights"]]}
-    req.update(tr_step(case["name"], case["target"], case["params"], enc))
-    return [req]
+    reqs = []
+    for dm in steps(case):  # the model is a function of (configuration, decision matrix): one request per transformed matrix
+        req = {"op": "tr", "domain": domain, "M": [[enc(x) for x in row] for row in dm["matrix"]],
+               "O": ["max" if o == 1 else "min" for o in dm["objectives"]], "w": [enc(x) for x in dm["weights"]]}
+        req.update(tr_step(case["name"], case["target"], case["params"], enc))
+        reqs.append(req)
+    return reqs
 
 
 # ----------------------------------------------------------------------------- the property, exactly
@@ -437,18 +494,32 @@ def normal_form(name, params, xs, ys, obj=None):
 
 
 def judge(case, obs, replies):
+    if "then" not in case:
+        return judge_one(case, case["dm"], obs, replies[0])
+    # a sequence: every output must satisfy the normal form computed from ITS OWN input, whatever the object transformed before
+    dms = steps(case)
+    if "err" in obs:  # the constructor refused
+        return judge_one(case, dms[0], obs, replies[0])
     out = []
-    name, target, params, dm = case["name"], case["target"], case["params"], case["dm"]
+    for i, (dm, ob, rep) in enumerate(zip(dms, obs["steps"], replies)):
+        out += judge_one(case, dm, ob, rep, f"[decision matrix #{i + 1} of {len(dms)} transformed by the same scaler object] ")
+        if out:
+            break
+    return out
+
+
+def judge_one(case, dm, obs, rep, label=""):
+    out = []
+    name, target, params = case["name"], case["target"], case["params"]
     A, w, o = dm["matrix"], dm["weights"], dm["objectives"]
     m, n = len(A), len(w)
 
     def prop(what, expected=None, observed=None):
-        out.append({"kind": "property", "what": what, "expected": expected, "observed": observed})
+        out.append({"kind": "property", "what": label + what, "expected": expected, "observed": observed})
 
     def corr(what, expected=None, observed=None):
-        out.append({"kind": "correspondence", "what": what, "expected": expected, "observed": observed})
+        out.append({"kind": "correspondence", "what": label + what, "expected": expected, "observed": observed})
 
-    rep = replies[0]
     if case["malformed"]:
         # out of the property's domain (scikit-learn refuses lo >= hi): only the model has to agree
         if (rep.get("err") == "ValueError") != (obs.get("err") == "ValueError"):
@@ -526,6 +597,10 @@ def tags(case, obs):
     t.append("magnitude:" + case["dm"].get("magnitude", "unit"))
     if case["malformed"]:
         t.append("malformed:" + ("refused" if "err" in obs else "accepted"))
+    t.append("same-object-transforms:" + str(len(steps(case))))
+    if "then" in case:
+        t.append("sequence:rows-" + ("same" if len({len(d["matrix"]) for d in steps(case)}) == 1 else "differ"))
+        t.append("sequence:magnitudes-" + ("same" if len({d["magnitude"] for d in steps(case)}) == 1 else "differ"))
     A = case["dm"]["matrix"]
     if any(v < 0 for r in A for v in r):
         t.append("has-negative")
